@@ -208,7 +208,20 @@ def run(ctx):
         ctx.broken.append({"kind": "correspondence", "tie": "T-diff c17 (murmur2 / DefaultPartitioner vs AkVerif.Murmur)",
                            "mismatches": len(mism),
                            "first": {"op": lines[mism[0]][:300], "impl": impl[mism[0]], "model": out[mism[0]]}})
+    # the translation of the source text (Gen/MurmurSrc.lean, regenerated by this run) evaluated on the same keys
+    src_idx = [i for i in range(len(lines)) if meta[i]["kind"] == "murmur"]
+    src_out = ctx.driver("akdriver", ["c17s srcmurmur " + lines[i].split(" ", 2)[2] for i in src_idx]) if src_idx else []
+    src_mism = [i for i, o in zip(src_idx, src_out) if o != impl[i]]
+    ctx.coverage["translated_source_evaluated_on_keys"] = len(src_idx)
+    if src_mism:
+        j = src_mism[0]
+        ctx.broken.append({"kind": "correspondence",
+                           "tie": "T-diff c17s (translated source text of murmur2, Gen/MurmurSrc.lean, vs the running murmur2)",
+                           "mismatches": len(src_mism),
+                           "first": {"op": lines[j][:300], "impl": impl[j], "translated_source": src_out[src_idx.index(j)]}})
     # S: failing-input search — evaluate the Lean statement on the implementation's results
+    if src_mism and not mism and proved:
+        search(ctx, part, lines, impl, meta, [])
     if mism or not proved:
         search(ctx, part, lines, impl, meta, mism)
 
